@@ -288,3 +288,20 @@ Section Budget.
     pose proof (do_get_cnt a s2 t2 M). lia.
   Qed.
 End Budget.
+
+Lemma ls_bound_values : forall n,
+  ls_bound Backtrack n = 3 * n /\ ls_bound Lemarechal n = 3 * n - 1 /\ ls_bound Fletcher n = 4 * n - 1 /\
+  ls_bound MoreThuente n = 3 * n /\ ls_bound CGDescent n = 9 * n + 1.
+Proof. intros n. unfold ls_bound, do_get_bound. repeat split; lia. Qed.
+
+Lemma default_max_iterations_value : default_max_iterations = 128 /\ min_max_iterations = 1.
+Proof. split; reflexivity. Qed.
+
+Lemma ls_get_cnt_default : forall phi prm p0 a t0,
+  maxit prm = default_max_iterations ->
+  0 <= cnt (rs (ls_get phi prm p0 a t0)) <=
+  match a with Backtrack => 384 | Lemarechal => 383 | Fletcher => 511 | MoreThuente => 384 | CGDescent => 1153 end.
+Proof.
+  intros phi prm p0 a t0 E. pose proof (ls_get_cnt phi prm p0 a t0) as H. rewrite E in H.
+  specialize (H ltac:(reflexivity)). destruct a; exact H.
+Qed.
